@@ -52,6 +52,8 @@ func init() {
 }
 
 func runC16(c *Ctx, r *Report) {
+	r.Rule("C16/fd-owner", "an *os.File of the transport package is closed only by a Close method", 1)
+	checkFileClosedOnlyByClose(c, r, "C16/fd-owner")
 	r.Rule("C16/pipes-drained", "every crypto/ssh session pipe the standard transport takes is read / written by it", 2)
 	checkSessionPipesDrained(c, r, "C16/pipes-drained")
 	r.Rule("C16/read-prefix", "Read allocates the requested size, performs one underlying read into it and returns exactly buffer[0:n]", 3)
